@@ -477,7 +477,7 @@ def run(rep, tier, seed):
     jobs = [(sh, i, 8 if sh[0] * sh[1] >= 6 else 1) for sh in shapes for i in range(8 if sh[0] * sh[1] >= 6 else 1)]
     on = ostates = 0
     fails = []
-    for n, states, fl in pmap(_obs_work, jobs):
+    for n, states, fl in dyn.pmap_w('obs', _obs_work, jobs):
         on += n
         ostates += states
         fails.extend(fl)
@@ -485,7 +485,7 @@ def run(rep, tier, seed):
     mshapes = [(1, 1), (1, 3), (2, 2), (2, 3), (3, 3)] if tier == 'quick' else U.SHAPES_MID
     mjobs = [(sh, i, 8 if sh[0] * sh[1] >= 6 else 1) for sh in mshapes for i in range(8 if sh[0] * sh[1] >= 6 else 1)]
     mn = mstates = 0
-    for n, states, fl in pmap(_member_work, mjobs):
+    for n, states, fl in dyn.pmap_w('member', _member_work, mjobs):
         mn += n
         mstates += states
         fails.extend(fl)
@@ -513,3 +513,6 @@ def run(rep, tier, seed):
         'random outcome; non-trivial = front cell outside the grid or a grid with non-floor cells; membership cases '
         'are each state with all its single-fault mutants',
     )
+
+
+WORKERS = {'obs': _obs_work, 'member': _member_work}
